@@ -58,6 +58,15 @@ CHECKS = {
    technique="deterministic simulation of hostile stored data for the three readers: seeded structure-aware fault injection (up to 3 stacked bit/byte/range faults on valid streams with CRC32s re-sealed half of the time, header-valid garbage incl. hostile uvarints/record counts/chunk headers, PRNG bytes) under fragmentation and Read schedules, with a per-Read step budget counted at the source seam and a wall-clock watchdog",
    text="Seeded exploration without coverage feedback (honest limit: this is not coverage-guided fuzzing). Oracle: no panic escapes, 0 <= n <= len(p), every Read returns within the step budget (<=16 empty source calls, <= len(input)+16 source calls) and the 30 s watchdog. Inputs declaring > 64 MiB of dictionary are excluded as the property says.",
    note="Outcome classes and which structure faults landed in are counted in evidence as reach probes."),
+
+ "C10": dict(engine="gxzsim", cat="fault_enumeration", ref="DESIGN.md §4 C10, §2.6",
+   technique="deterministic simulation of the gxz process on a simulated file system: the unmodified main() of a scratch copy of cmd/gxz runs in-process over verif/sim/simos (os, os/signal, term redirected by a go/ast import rewrite + build overlay); every file-system mutation of a run is enumerated as kill point (before / after / mid-write) and as ENOSPC/EIO fault point, reads fail at seeded offsets; data-loss invariants evaluated on the simulated directory after every kill and every run",
+   text="Per scenario the crash/fault space is enumerated completely (every mutating fs operation x {kill before, kill after, kill mid-write, ENOSPC with partial write, EIO} + read faults); scenarios ({compress,decompress} x {xz,lzma} x subsets of -k/-f/-c x names with spaces/known/unknown suffix/.txz/.tlz x valid/truncated/damaged/garbage input, existing target, stale temp file, bystander file) are sampled. Invariants: the data exists in one complete form at every kill instant and after every run; failing runs exit non-zero, leave the input untouched, nothing partial under the target name; no temporary file after a non-killed run.",
+   note="Process-kill semantics (completed operations durable), not power loss. simos stands for the kernel (flat namespace, modes, umask, O_EXCL, atomic rename). gxz's flag set/logger/os are process-global, so the batch is sharded over 16 child processes, one simulation at a time each."),
+ "C15": dict(engine="gxzsim", cat="exploration", ref="DESIGN.md §4 C15, §2.6",
+   technique="deterministic simulation of gxz invocation histories on a simulated directory (unmodified main() in-process over the simulated os), compared after every invocation with an executable model of the documented command line; outputs judged by independent decoders and liblzma, compressed inputs from liblzma / reference encoders",
+   text="Seeded exploration of directory states x histories of 1-3 invocations x argument vectors (all listed flags, long/bundled forms, '--', operands before options, 0-3 operands with failing members, mixed formats under auto-detection, odd names). Compared: exit status class, resulting tree (names, modes, contents: decompressed exact, compressed by reference decoding), stdout.",
+   note="The model encodes the documented semantics and the xz-utils conventions the property names; stderr is not compared; bool-literal file names that gflag would swallow are not generated."),
 }
 
 NOT_APPLICABLE = {
